@@ -472,6 +472,26 @@ var rR17 = RuleRef{Name: "R17", Doc: "guarded shared state: every access to Chan
 			return -1
 		}
 		pi, reads := -1, false
+		// the comparison with the deadline may sit one or two helpers further down (deadlineReached(rec, now))
+		var readsValue func(f *ssa.Function, d int) bool
+		readsValue = func(f *ssa.Function, d int) bool {
+			if f == nil || f.Blocks == nil || d > 2 || pkgRel(f) != "memdb" {
+				return false
+			}
+			for _, b := range f.Blocks {
+				for _, in := range b.Instrs {
+					if fa, ok := in.(*ssa.FieldAddr); ok && fieldName(fa) == "value" && namedOf(fa.X.Type()) == "TTLInfo" {
+						return true
+					}
+					if call, ok := in.(*ssa.Call); ok && d < 2 {
+						if cf := callee(call); cf != nil && cf != f && readsValue(cf, d+1) {
+							return true
+						}
+					}
+				}
+			}
+			return false
+		}
 		for _, b := range fn.Blocks {
 			for _, in := range b.Instrs {
 				if call, ok := in.(*ssa.Call); ok {
@@ -479,11 +499,9 @@ var rR17 = RuleRef{Name: "R17", Doc: "guarded shared state: every access to Chan
 						pi = paramIndex(fn, canon(ga.Key))
 					}
 				}
-				if fa, ok := in.(*ssa.FieldAddr); ok && fieldName(fa) == "value" && namedOf(fa.X.Type()) == "TTLInfo" {
-					reads = true
-				}
 			}
 		}
+		reads = readsValue(fn, 0)
 		if !reads {
 			return -1
 		}
